@@ -2,6 +2,7 @@ import H2V.Lemmas.ConnNoPanicPMain
 import H2V.Lemmas.ConnNoPanicPReach
 import H2V.Lemmas.ConnNoPanicPHist
 import H2V.Lemmas.ConnNoPanicPAll
+import H2V.Lemmas.ConnNoPanicPAll2
 import H2V.Lemmas.ConnNoPanicPFuel
 /-
   C08 — no peer input (and no use of the documented API) can make an endpoint panic.
@@ -240,6 +241,35 @@ example : AReach (H2V.Lemmas.ConnResetP.run wInit wOps2) [] ∧ H2V.Lemmas.ConnC
     (H2V.Lemmas.ConnResetP.run wInit wOps2).store.slab.length = 0 :=
   ⟨wOps2_areach, wOps2_facts.1, wOps2_facts.2⟩
 
+/-- **No panic on a connection without server push, 37 operations** (partial: five operations are still missing, see
+    NOTES).  `BReach s H`: as `AReach`, for a connection that never accepts a PUSH_PROMISE (`NoPush`: every server, and every
+    client that announced SETTINGS_ENABLE_PUSH = 0 — nobody writes `recv.is_push_enabled` after the constructor).  There every
+    `pending_push_promises` list stays empty (`NoPPP`), so (a) dropping a handle needs NO hypothesis any more (the
+    `dropPPP s k = []` of the theorems above is discharged), and (b) a PUSH_PROMISE frame from the peer, with any
+    arguments, is answered by a connection error and leaves the stream layer literally unchanged. -/
+theorem no_panic_without_server_push_partial {s : Streams} {H : List Nat} (h : BReach s H)
+    (he : H2V.Lemmas.ConnCountsP.ErrOK s) : s.panicked = none ∧ Good3 s H :=
+  ⟨(breach_good h he).good.npi.np, breach_good h he⟩
+
+/-- non-vacuity: request, a PUSH_PROMISE (refused), response head, DATA, clone, two drops, EOF: everything released -/
+example : BReach (H2V.Lemmas.ConnResetP.run wInit3 wOps3) [] ∧ H2V.Lemmas.ConnCountsP.ErrOK (H2V.Lemmas.ConnResetP.run wInit3 wOps3) ∧
+    (H2V.Lemmas.ConnResetP.run wInit3 wOps3).store.slab.length = 0 :=
+  ⟨wOps3_breach, wOps3_facts.1, wOps3_facts.2⟩
+
+/-- **`poll_pushed` cannot panic there** (`.expect("Headers not set on pushed stream")`, the site added with repair F32):
+    through any held handle it finds nothing to take, keeps the invariant and never hands out a new handle. -/
+theorem poll_pushed_cannot_panic_without_push {s : Streams} {H : List Nat} (h : BReach s H)
+    (he : H2V.Lemmas.ConnCountsP.ErrOK s) {k : Nat} (hk : k ∈ H) (t : String) :
+    (s.refPollPushed k t).1.panicked = none ∧ NPI (fun _ => False) (s.refPollPushed k t).1 ∧
+    ∀ c m u f, (s.refPollPushed k t).2 ≠ .pushed c m u f :=
+  ⟨(refPollPushed_good3 (breach_good h he) hk t).1, (refPollPushed_good3 (breach_good h he) hk t).2.1,
+   (refPollPushed_good3 (breach_good h he) hk t).2.2.2.2⟩
+
+/-- non-vacuity: after `send_request` the application holds the handle with key 0 -/
+example : BReach (H2V.Lemmas.ConnResetP.run wInit3 [.sendRequest false [] false none]) [0] ∧
+    H2V.Lemmas.ConnCountsP.ErrOK (H2V.Lemmas.ConnResetP.run wInit3 [.sendRequest false [] false none]) ∧ 0 ∈ [0] :=
+  ⟨wOps3a_breach, wOps3a_facts, List.mem_singleton.mpr rfl⟩
+
 /-- **The invariant behind it, in every reachable state**: besides `panicked = none`, (a) `find_mut(id)` hands out
     only keys that resolve, to an entry with that stream id, and the id map is a map (`IdsOK`); (b) the good-state
     conditions `NPQ` that the per-function theorems above assume. -/
@@ -329,3 +359,5 @@ end H2V.Props.C08NoPanic
 #print axioms H2V.Props.C08NoPanic.no_panic_under_handle_discipline_partial
 #print axioms H2V.Props.C08NoPanic.no_panic_35_operations_partial
 #print axioms H2V.Props.C08NoPanic.remaining_silent_loops_terminate
+#print axioms H2V.Props.C08NoPanic.no_panic_without_server_push_partial
+#print axioms H2V.Props.C08NoPanic.poll_pushed_cannot_panic_without_push
